@@ -1218,19 +1218,33 @@ nomem:
  *   @format:  printf-like format string forming the property expression
  *   @ap       variable argument pointer
  */
+static vnaproperty_t **descend(parser_t *parser,
+	vnaproperty_t **rootptr, bool set);	/* forward */
+
 static vnaproperty_t **parse_and_descend(parser_t *parser,
 	vnaproperty_t **rootptr, bool set, const char *format, va_list ap)
 {
-    vnaproperty_t **anchor = rootptr;
-    vnaproperty_t *node = *anchor;
-    vnaproperty_t *collection = NULL;
-
     /*
      * Parse the expression.
      */
     if (parse(parser, format, ap) == -1) {
 	return NULL;
     }
+    return descend(parser, rootptr, set);
+}
+
+/*
+ * descend: follow the parsed expression down the tree
+ *   @parser:  parser state filled in by parse
+ *   @rootptr: address of property data root
+ *   @set:     force the tree to conform to the indicated expression
+ */
+static vnaproperty_t **descend(parser_t *parser,
+	vnaproperty_t **rootptr, bool set)
+{
+    vnaproperty_t **anchor = rootptr;
+    vnaproperty_t *node = *anchor;
+    vnaproperty_t *collection = NULL;
 
     /*
      * Following the expression list, walk down the tree.
@@ -1601,8 +1615,10 @@ int vnaproperty_vset(vnaproperty_t **rootptr, const char *format, va_list ap)
     vnaproperty_t *value = NULL;
     int rv = -1;
 
-    if ((anchor = parse_and_descend(&parser, rootptr, /*set*/true,
-		    format, ap)) == NULL) {
+    /*
+     * Parse and validate the whole expression before modifying the tree.
+     */
+    if (parse(&parser, format, ap) == -1) {
 	return -1;
     }
 
@@ -1622,6 +1638,17 @@ int vnaproperty_vset(vnaproperty_t **rootptr, const char *format, va_list ap)
     default:
 	errno = EINVAL;
 	goto out;
+    }
+    if (scanner->scn_token != T_ASSIGN && scanner->scn_token != T_HASH) {
+	errno = EINVAL;
+	goto out;
+    }
+
+    /*
+     * Make the tree conform and descend to the requested node.
+     */
+    if ((anchor = descend(&parser, rootptr, /*set*/true)) == NULL) {
+	return -1;
     }
 
     /*
@@ -1772,18 +1799,20 @@ vnaproperty_t **vnaproperty_vset_subtree(vnaproperty_t **rootptr,
     scanner_t *scanner = &parser.prs_scn;
     vnaproperty_t **anchor;
 
-    if ((anchor = parse_and_descend(&parser, rootptr,
-		    /*set*/true, format, ap)) == NULL) {
+    /*
+     * Parse the expression and make sure there are no unexpected
+     * trailing tokens before modifying the tree.
+     */
+    if (parse(&parser, format, ap) == -1) {
 	return NULL;
     }
-
-    /*
-     * Make sure there are no unexpected trailing tokens.
-     */
     if (scanner->scn_token != T_EOF) {
 	errno = EINVAL;
 	anchor = NULL;
 	goto out;
+    }
+    if ((anchor = descend(&parser, rootptr, /*set*/true)) == NULL) {
+	return NULL;
     }
 
 out:
